@@ -80,7 +80,12 @@ func genDscDoc(t *rapid.T) TypedDocCase {
 	e.Scalars["Maintainer"] = maint
 	ups := genPeople(t, "up", 3)
 	if len(ups) > 0 {
-		b.commaList("Uploaders", ups, genFoldMask(t, "up"))
+		if rapid.IntRange(0, 5).Draw(t, "upTrailingComma") == 0 {
+			// "A,\n B,\n C," - the wrap-and-sort -t style; dpkg-source copies the comma through
+			b.commaListTrailing("Uploaders", ups, genFoldMask(t, "up"))
+		} else {
+			b.commaList("Uploaders", ups, genFoldMask(t, "up"))
+		}
 	}
 	e.Lists["Uploaders"] = ups
 	acc["Maintainers"] = append([]string{maint}, ups...)
@@ -243,7 +248,12 @@ func genControlDoc(t *rapid.T) TypedDocCase {
 	se.Scalars["Maintainer"] = maint
 	ups := genPeople(t, "up", 3)
 	if len(ups) > 0 {
-		b.commaList("Uploaders", ups, genFoldMask(t, "up"))
+		if rapid.IntRange(0, 5).Draw(t, "upTrailingComma") == 0 {
+			// "A,\n B,\n C," - the wrap-and-sort -t style; dpkg-source copies the comma through
+			b.commaListTrailing("Uploaders", ups, genFoldMask(t, "up"))
+		} else {
+			b.commaList("Uploaders", ups, genFoldMask(t, "up"))
+		}
 	}
 	se.Lists["Uploaders"] = ups
 	acc["Source.Maintainers"] = append([]string{maint}, ups...)
